@@ -110,6 +110,65 @@ Example C14_frame_example :
   get_new_path w_names 0 [47; 102; 111; 111; 47] (tabs_of 3 w_tab) [47; 102; 111; 111; 47; 102; 114; 47; 120; 47; 52; 50; 47; 97; 45; 112; 114; 111; 112; 111; 115] [113; 61; 49] [116; 111; 112] 2 (Some 1%nat) = Ok [47; 102; 111; 111; 47; 100; 101; 47; 120; 47; 52; 50; 47; 117; 101; 98; 101; 114; 63; 113; 61; 49; 35; 116; 111; 112].
 Proof. vm_compute. reflexivity. Qed.
 
+(** * Overlapping routes: first-match semantics.
+    When several routes match, the router's rule is "the first matching route wins" (and inside a route
+    an optional parameter takes a segment whenever the rest of the path can still be read).
+    [first_parse n a t segs] is that first reading, [expected_segs n t a b segs] the same segments with
+    the static segments of the first reading in [b]'s spelling (a path no route matches is kept).
+    [valid_url] no longer asks for a unique reading: locale names and table well formed, segments
+    non-empty and slash-free, and a URL of the default locale does not start with a locale name.
+    [path_denotes]: the path string may be spelled with repeated or trailing slashes. *)
+Theorem C14_first_match_frame : forall names dflt base bsegs t a b segs old path search hash,
+  valid_url names dflt t a b segs -> base_ok base bsegs -> old_ok_p dflt a old ->
+  path_denotes names dflt bsegs a segs path ->
+  get_new_path names dflt base (tabs_of (length names) t) path search hash b old
+  = Ok (render_path (bsegs ++ prefix_of names dflt b ++ expected_segs (length names) t a b segs) ++ url_suffix search hash).
+Proof. exact switch_first_match. Qed.
+
+(** switching back restores the URL whenever the first reading of the image is the same reading *)
+Theorem C14_first_match_roundtrip : forall names dflt base bsegs t a b segs inst path search hash,
+  valid_url names dflt t a b segs -> valid_url names dflt t b a (render b inst) ->
+  first_parse (length names) a t segs = Some inst ->
+  first_parse (length names) b t (render b inst) = Some inst ->
+  base_ok base bsegs -> path_denotes names dflt bsegs a segs path ->
+  forall u, get_new_pathname names dflt base (tabs_of (length names) t) path b (Some a) = Ok u ->
+  get_new_path names dflt base (tabs_of (length names) t) u search hash a (Some b)
+  = Ok (render_path (bsegs ++ prefix_of names dflt a ++ segs) ++ url_suffix search hash).
+Proof. exact roundtrip_first_match. Qed.
+
+Theorem C14_first_match_history : forall names dflt base bsegs t by_path ls a segs path,
+  hist_valid names dflt t a segs ls -> base_ok base bsegs -> (by_path = true -> NoDup names) ->
+  path_denotes names dflt bsegs a segs path ->
+  history names dflt base (tabs_of (length names) t) by_path path (Some a) ls
+  = Ok (map (fun ls' => render_path (bsegs ++ prefix_of names dflt (fst ls') ++ snd ls'))
+            (expected_history (length names) t a segs ls)).
+Proof. exact history_first_match. Qed.
+
+Theorem C14_first_match_spec : forall names dflt base bsegs t a b segs old path search hash,
+  valid_url names dflt t a b segs -> base_ok base bsegs -> old_ok_p dflt a old ->
+  path_denotes names dflt bsegs a segs path ->
+  spec_first_match names dflt bsegs t a b segs search hash
+    (get_new_path names dflt base (tabs_of (length names) t) path search hash b old) = true.
+Proof. exact spec_first_match_holds. Qed.
+
+(** a path with exactly one reading has it as first reading: the unique-reading theorems above are
+    the special case of the first-match ones *)
+Theorem C14_unique_is_first : forall n t a inst, reads_as n t a inst -> first_parse n a t (render a inst) = Some inst.
+Proof. exact reads_as_first. Qed.
+
+(** routes "/", "/<about>", then the catch-alls "/:page" and "/*any": "/fr/a-propos" matches three
+    routes; the first one wins, so en gets "/about" (a last-match rule would give "/a-propos") *)
+Definition w_overlap : list (list aseg) :=
+  [[w_root]; [w_root; AStatic w_about]; [w_root; AParam [112; 97; 103; 101]]; [w_root; ASplat [97; 110; 121]]].
+Example C14_first_match_example :
+  valid_url w_names 0 w_overlap 1 0 [[97; 45; 112; 114; 111; 112; 111; 115]] /\
+  length (flat_map (fun r => parses 3 1 r [[97; 45; 112; 114; 111; 112; 111; 115]]) w_overlap) = 3%nat /\
+  get_new_path w_names 0 [slash] (tabs_of 3 w_overlap) [47; 47; 102; 114; 47; 97; 45; 112; 114; 111; 112; 111; 115; 47] [] [] 0 (Some 1%nat) = Ok [47; 97; 98; 111; 117; 116] /\
+  get_new_path w_names 0 [slash] (tabs_of 3 w_overlap) [47; 97; 98; 111; 117; 116] [] [] 1 (Some 0%nat) = Ok [47; 102; 114; 47; 97; 45; 112; 114; 111; 112; 111; 115].
+Proof.
+  split; [apply valid_url_b_sound; vm_compute; reflexivity|]. repeat split; vm_compute; reflexivity.
+Qed.
+
 (** the algorithms before the repairs (kept as [..._old]) violate the specification on valid inputs:
     "/french/x" read as fr; base path "/foo" not stripped ("/foo/fr/about" -> "/foo/de/fr/about");
     "/english" under the default locale en rewritten to "/fr/glish"; an optional parameter that is
